@@ -1,0 +1,217 @@
+//! C16, S2: real `Litep2p` nodes with Kademlia on 127.0.0.1 and one fault placement.
+//!
+//! `s2 fault=<none|undialable|refused|limit> op=<put_to|find_node|start_providing> quorum=<one|n2|all> [wait=<secs>]`
+//!
+//! The local node knows two peers: a healthy node `G` and the fault target `F` (a healthy third
+//! node for `none`/`limit`; a peer id with only an address of a transport that is not enabled for
+//! `undialable`; a peer id whose TCP port is closed for `refused`). For `limit` the local node allows
+//! one outgoing connection and is connected to `G` before the operation starts.
+//!
+//! Observation: `s2 terminal=<events of the query, in order> received=<targets that got the data>`,
+//! or `inconclusive` when the scenario could not be set up. Real clock, generous deadlines, no timing
+//! is reported.
+
+use crate::{
+    config::ConfigBuilder,
+    protocol::libp2p::kademlia::{
+        ConfigBuilder as KadConfigBuilder, KademliaEvent, KademliaHandle, Quorum, Record, RecordKey,
+    },
+    transport::{manager::limits::ConnectionLimitsConfig, tcp::config::Config as TcpConfig},
+    Litep2p, PeerId,
+};
+
+use futures::StreamExt;
+use multiaddr::{Multiaddr, Protocol};
+use tokio::sync::mpsc::{unbounded_channel, UnboundedSender};
+
+use std::{collections::HashMap, time::Duration};
+
+/// How long the terminal event of the operation may take unless `wait=` says otherwise (dial and
+/// negotiation timeouts included).
+const DEADLINE: Duration = Duration::from_secs(75);
+/// How long a second terminal event is waited for afterwards.
+const GRACE: Duration = Duration::from_secs(1);
+
+fn node(limit: bool) -> (Litep2p, KademliaHandle) {
+    let (kad_config, kad_handle) = KadConfigBuilder::new().build();
+    let mut builder = ConfigBuilder::new()
+        .with_tcp(TcpConfig {
+            listen_addresses: vec!["/ip4/127.0.0.1/tcp/0".parse().expect("addr")],
+            ..Default::default()
+        })
+        .with_libp2p_kademlia(kad_config);
+    if limit {
+        builder = builder.with_connection_limits(
+            ConnectionLimitsConfig::default().max_outgoing_connections(Some(1)),
+        );
+    }
+    (Litep2p::new(builder.build()).expect("litep2p"), kad_handle)
+}
+
+fn address(node: &Litep2p) -> Option<Multiaddr> {
+    let peer = *node.local_peer_id();
+    node.listen_addresses().next().map(|address| {
+        if address.iter().any(|p| matches!(p, Protocol::P2p(_))) {
+            address.clone()
+        } else {
+            address.clone().with(Protocol::P2p(peer.into()))
+        }
+    })
+}
+
+/// Run a remote node: poll its events, report every record / provider it is sent.
+fn serve(mut node: Litep2p, mut kad: KademliaHandle, tx: UnboundedSender<PeerId>) {
+    let me = *node.local_peer_id();
+    tokio::spawn(async move {
+        loop {
+            tokio::select! {
+                event = node.next_event() => if event.is_none() { return },
+                event = kad.next() => match event {
+                    None => return,
+                    Some(KademliaEvent::IncomingRecord { .. }) | Some(KademliaEvent::IncomingProvider { .. }) => {
+                        let _ = tx.send(me);
+                    }
+                    Some(_) => {}
+                },
+            }
+        }
+    });
+}
+
+fn terminal(event: &KademliaEvent) -> Option<(usize, &'static str)> {
+    Some(match event {
+        KademliaEvent::FindNodeSuccess { query_id, .. } => (query_id.0, "FindNodeSuccess"),
+        KademliaEvent::GetRecordSuccess { query_id, .. } => (query_id.0, "GetRecordSuccess"),
+        KademliaEvent::GetProvidersSuccess { query_id, .. } => (query_id.0, "GetProvidersSuccess"),
+        KademliaEvent::PutRecordSuccess { query_id, .. } => (query_id.0, "PutRecordSuccess"),
+        KademliaEvent::AddProviderSuccess { query_id, .. } => (query_id.0, "AddProviderSuccess"),
+        KademliaEvent::QueryFailed { query_id } => (query_id.0, "QueryFailed"),
+        _ => return None,
+    })
+}
+
+/// Terminal events of `query` seen until the first one plus the grace period (or the deadline).
+async fn wait_terminal(kad: &mut KademliaHandle, query: usize, limit: Duration) -> Vec<&'static str> {
+    let mut seen = Vec::new();
+    let mut deadline = tokio::time::Instant::now() + limit;
+    loop {
+        match tokio::time::timeout_at(deadline, kad.next()).await {
+            Err(_) | Ok(None) => return seen,
+            Ok(Some(event)) =>
+                if let Some((q, kind)) = terminal(&event) {
+                    if q == query {
+                        if seen.is_empty() {
+                            deadline = tokio::time::Instant::now() + GRACE;
+                        }
+                        seen.push(kind);
+                    }
+                },
+        }
+    }
+}
+
+async fn scenario(args: HashMap<&str, &str>) -> String {
+    let fault = args.get("fault").copied().unwrap_or("none");
+    let op = args.get("op").copied().unwrap_or("put_to");
+    let quorum = match args.get("quorum").copied().unwrap_or("one") {
+        "one" => Quorum::One,
+        "all" => Quorum::All,
+        "n2" => Quorum::N(std::num::NonZeroUsize::new(2).expect("2")),
+        _ => return "bad-op".into(),
+    };
+    let limit = match args.get("wait") {
+        None => DEADLINE,
+        Some(secs) => match secs.parse::<u64>() {
+            Ok(secs) if (1..=300).contains(&secs) => Duration::from_secs(secs),
+            _ => return "bad-op".into(),
+        },
+    };
+    if !["none", "undialable", "refused", "limit"].contains(&fault)
+        || !["put_to", "find_node", "start_providing"].contains(&op)
+    {
+        return "bad-op".into();
+    }
+
+    let (mut local, mut kad) = node(fault == "limit");
+    let (good, good_kad) = node(false);
+    let good_peer = *good.local_peer_id();
+    let Some(good_address) = address(&good) else { return "inconclusive".into() };
+    let (tx, mut rx) = unbounded_channel();
+    serve(good, good_kad, tx.clone());
+
+    let (target, target_addresses) = match fault {
+        "none" | "limit" => {
+            let (third, third_kad) = node(false);
+            let peer = *third.local_peer_id();
+            let Some(third_address) = address(&third) else { return "inconclusive".into() };
+            serve(third, third_kad, tx.clone());
+            (peer, vec![third_address])
+        }
+        "refused" => {
+            // a port that was free a moment ago and has no listener
+            let Ok(listener) = std::net::TcpListener::bind("127.0.0.1:0") else { return "inconclusive".into() };
+            let Ok(local_addr) = listener.local_addr() else { return "inconclusive".into() };
+            drop(listener);
+            let peer = PeerId::random();
+            let address: Multiaddr = format!("/ip4/127.0.0.1/tcp/{}", local_addr.port()).parse().expect("addr");
+            (peer, vec![address.with(Protocol::P2p(peer.into()))])
+        }
+        _ => {
+            // only an address of a transport that is not enabled
+            let peer = PeerId::random();
+            let address: Multiaddr = "/ip4/127.0.0.1/udp/4001/quic-v1".parse().expect("addr");
+            (peer, vec![address.with(Protocol::P2p(peer.into()))])
+        }
+    };
+
+    tokio::spawn(async move { while local.next_event().await.is_some() {} });
+    kad.add_known_peer(good_peer, vec![good_address]).await;
+
+    if fault == "limit" {
+        // occupy the only outgoing connection slot with `G`
+        let warmup = kad.find_node(good_peer).await;
+        if wait_terminal(&mut kad, warmup.0, DEADLINE).await.is_empty() {
+            return "inconclusive".into();
+        }
+    }
+    kad.add_known_peer(target, target_addresses).await;
+
+    let query = match op {
+        "put_to" => {
+            let record = Record::new(RecordKey::new(&b"c16-s2".to_vec()), b"value".to_vec());
+            kad.put_record_to_peers(record, vec![good_peer, target], false, quorum).await
+        }
+        "find_node" => kad.find_node(PeerId::random()).await,
+        _ => kad.start_providing(RecordKey::new(&b"c16-s2".to_vec()), quorum).await,
+    };
+    let seen = wait_terminal(&mut kad, query.0, limit).await;
+
+    let mut received = Vec::new();
+    while let Ok(peer) = rx.try_recv() {
+        let name = if peer == good_peer { "G" } else { "F" };
+        if !received.contains(&name) {
+            received.push(name);
+        }
+    }
+    received.sort();
+    format!(
+        "s2 terminal={} received={}",
+        if seen.is_empty() { "-".to_string() } else { seen.join(",") },
+        if received.is_empty() { "-".to_string() } else { received.join(",") },
+    )
+}
+
+pub(super) fn run(rest: &[&str]) -> String {
+    let args = crate::verif::kv(rest);
+    let Ok(runtime) = tokio::runtime::Builder::new_multi_thread().worker_threads(2).enable_all().build() else {
+        return "inconclusive".into();
+    };
+    let out = runtime.block_on(async move {
+        match tokio::time::timeout(Duration::from_secs(400), scenario(args)).await {
+            Ok(out) => out,
+            Err(_) => "inconclusive".to_string(),
+        }
+    });
+    runtime.shutdown_background();
+    out
+}
